@@ -104,6 +104,7 @@ Definition entry (x : sx) : sx :=
       else if head_is "decode_utext" h then e_decode_utext args
       else if head_is "item_run" h then e_item_run args
       else if head_is "sender_run" h then e_sender_run args
+      else if head_is "sender_fault_run" h then e_sender_fault_run args
       else if head_is "outbound_run" h then e_outbound_run args
       else if head_is "shell_run" h then e_shell_run args
       else if head_is "pool_size" h then e_pool_size args
